@@ -66,6 +66,7 @@ def sites(s):
 def phases(records):
     """per call index: {phase: {"state": {...}, "lib": {site: (n, bytes)}, "other": {...}, "live": n}}, plus the event lists"""
     calls, errs, faults, trace = {}, [], [], {}
+    allsites = set()
     pending = None
     for f in records:
         if f[0] == "alloc":
@@ -84,7 +85,29 @@ def phases(records):
             faults.append((int(f[1]), f[2], int(f[3]), int(f[4])))
         elif f[0] == "ftrace":
             trace.setdefault(int(f[1]), []).append((f[2], int(f[3])))
+            if len(f) > 4:
+                allsites.add((f[2], f[4]))
+        elif f[0] == "allocsites" and len(f) > 1:
+            for st in f[1].split(","):
+                if st:
+                    allsites.add(("alloc", st))
+    phases.last_sites = allsites
     return calls, errs, faults, trace
+
+
+def site_functions(lib, site_list):
+    """{site: function name} for 'obj+0xoff' call sites inside `lib` (one addr2line run)"""
+    addrs, keys = [], []
+    for st in site_list:
+        m = re.match(r".*\+0x([0-9a-f]+)$", st)
+        if m:
+            addrs.append("0x%x" % (int(m.group(1), 16) - 1))
+            keys.append(st)
+    if not addrs:
+        return {}
+    p = subprocess.run(["addr2line", "-f", "-e", lib] + addrs, stdout=subprocess.PIPE, text=True, timeout=60)
+    l = p.stdout.strip().splitlines()
+    return {k: l[2 * i] for i, k in enumerate(keys) if 2 * i < len(l)}
 
 
 def addr2line(lib, site):
